@@ -1090,6 +1090,12 @@ class Client():
         self.connector.serviceReceives()
         if self.waited:
             try:
+                if (self.connector.cutoff and not self.connector.reconnectable and
+                        not self.respondent.started and not self.connector.rxbs):
+                    # far side closed before any byte of the response: the
+                    # request in process can never be answered
+                    raise httping.PrematureClosure("Connection closed before"
+                                                   " response to request")
                 self.respondent.parse()
             except httping.HTTPException as ex:
                 self.respondent.errored = True
